@@ -1,4 +1,5 @@
 pub mod broker;
+pub mod bytede;
 pub mod checks;
 pub mod codec;
 pub mod collector;
